@@ -201,6 +201,8 @@ def binning_params(draw, max_bins=4, methods=("linear", "comoving", "logspace", 
     closed = draw(closed_strategy)
     nb = draw(st.integers(1, max_bins))
     zmin = draw(zmin_strategy)
+    if method != "comoving" and draw(st.integers(0, 19)) == 0:
+        zmin = 0.0  # boundary (and falsy) value; comoving binning from z=0 is rejected by astropy
     width = draw(st.one_of(loguniform(0.01, 0.3), loguniform(0.3, 4.0)))
     zmax = zmin + width
     if method == "custom":
